@@ -13,6 +13,7 @@ import itertools
 import warnings
 
 from vf import ref_types as R
+from vf.core import disturb_process
 from vf.core import vacuous, HarnessError, Tally
 
 LEVEL = "exploration"
@@ -432,6 +433,7 @@ DISPATCH = {"Bool": do_bool, "String": do_string, "NagString": do_string, "OneOf
 
 def work(chunk):
     t = Tally()
+    disturb_process()
     for spec in chunk:
         conv = mk(spec)
         rec = Rec(t, spec)
